@@ -344,3 +344,142 @@ Proof.
       unfold inner. rewrite parse_use_deps_print; [reflexivity|discriminate|assumption|]. fold inner. cbn [length] in *. lia.
   - destruct (Hno eq_refl) as [-> ->]. reflexivity.
 Qed.
+
+(* ---- the name/version boundary ---- *)
+Lemma ver_split_app pre : forall s,
+  (forall c, In c pre -> is 10 c = false) ->
+  (forall x y, pre = x ++ nb 45 :: y -> ver_tail (y ++ s) = None) ->
+  ver_split (pre ++ s) = match ver_split s with Some (p, t) => Some (pre ++ p, t) | None => None end.
+Proof.
+  induction pre as [|c pre IH]; intros s Hnl Hh.
+  - cbn [app]. destruct (ver_split s) as [[p t]|]; reflexivity.
+  - cbn [app ver_split]. rewrite (Hnl c (or_introl eq_refl)).
+    assert (E : (if is 45 c then ver_tail (pre ++ s) else None) = None).
+    { destruct (is 45 c) eqn:Ec; [|reflexivity]. apply is_eq in Ec. subst c. apply (Hh [] pre). reflexivity. }
+    rewrite E. rewrite IH.
+    + destruct (ver_split s) as [[p t]|]; reflexivity.
+    + intros c0 H0. apply Hnl. now right.
+    + intros x y Hxy. apply (Hh (c :: x) y). cbn. now f_equal.
+Qed.
+
+(* a hyphen inside category/name followed by "-<digit>..." can never start a version: inside a
+   version the only hyphen is the one of "-r<digits>" *)
+Lemma tail_before_version y v g : wfv v -> ver_tail (y ++ nb 45 :: print_version v ++ globtxt g) = None.
+Proof.
+  intros W. destruct (ver_tail _) as [t|] eqn:E; [|reflexivity]. exfalso.
+  apply ver_tail_sound in E as (v' & g' & W' & Ex & _).
+  pose proof (hy_r_version v' g' W') as H1. rewrite <- Ex in H1.
+  pose proof (peek_join_digit (v_nums v) (opt_char (v_letter v) ++ print_sufs v ++ revtxt v ++ globtxt g)
+                (wfv_ne v W) (wfv_nums v W)) as Hd.
+  assert (Ev : print_version v ++ globtxt g = join (nb 46) (v_nums v) ++ opt_char (v_letter v) ++ print_sufs v ++ revtxt v ++ globtxt g).
+  { rewrite print_version_eq. unfold print_ver_main. now rewrite <- !app_assoc. }
+  rewrite Ev in H1. destruct (join (nb 46) (v_nums v) ++ _) as [|d rest]; [cbn in Hd; discriminate|].
+  cbn [peek] in Hd. rewrite hy_r_bad in H1 by assumption. discriminate.
+Qed.
+
+Fixpoint hyphen_tails_in (n : bytes) (y : bytes) : Prop :=
+  match n with [] => False | c :: r => (is 45 c = true /\ y = r) \/ hyphen_tails_in r y end.
+Lemma hyphen_tails_spec n y : (exists x, n = x ++ nb 45 :: y) -> In y (hyphen_tails n).
+Proof.
+  intros [x ->]. induction x as [|c x IH]; cbn [app hyphen_tails].
+  - replace (is 45 (nb 45)) with true by reflexivity. now left.
+  - destruct (is 45 c); [right|]; exact IH.
+Qed.
+
+Lemma suffix_chars (p : ascii -> bool) (n x y : bytes) c : n = x ++ c :: y -> forallb p n = true -> forallb p y = true.
+Proof. intros -> H. rewrite forallb_app in H. apply andb_true_iff in H as [_ H]. cbn in H. now apply andb_true_iff in H as [_ H]. Qed.
+
+Lemma name_tail_none n y : wf_name n = true -> (exists x, n = x ++ nb 45 :: y) -> ver_tail y = None.
+Proof.
+  intros Hwf Hy. destruct (ver_tail y) as [t|] eqn:E; [|reflexivity]. exfalso.
+  unfold wf_name in Hwf. apply andb_true_iff in Hwf as [Hwf Hv]. apply andb_true_iff in Hwf as [_ Hch].
+  pose proof (hyphen_tails_spec n y Hy) as Hin. rewrite forallb_forall in Hv. specialize (Hv y Hin).
+  apply negb_true_iff in Hv. destruct Hy as [x Hx]. pose proof (suffix_chars pkg_char n x y _ Hx Hch) as Hyc.
+  apply ver_tail_sound in E as (v' & g' & W' & Ex & _). destruct g'.
+  - subst y. rewrite forallb_app in Hyc. apply andb_true_iff in Hyc as [_ Hg]. cbn in Hg. discriminate.
+  - cbn [globtxt] in Ex. rewrite app_nil_r in Ex. subst y. rewrite pms_version_print in Hv by assumption. discriminate.
+Qed.
+
+Lemma slash_tail_none y : In (nb 47) y -> ver_tail y = None.
+Proof.
+  intros Hin. destruct (ver_tail y) as [t|] eqn:E; [|reflexivity]. exfalso.
+  apply ver_tail_sound in E as (v' & g' & W' & Ex & _). pose proof (ver_chars v' g' W') as Hc. rewrite <- Ex in Hc.
+  rewrite forallb_forall in Hc. specialize (Hc _ Hin). discriminate.
+Qed.
+
+Lemma catname_split cat n x y : cat ++ nb 47 :: n = x ++ nb 45 :: y ->
+  In (nb 47) y \/ exists x', n = x' ++ nb 45 :: y.
+Proof.
+  intros H. apply app_eq_app in H as [m [[H1 H2]|[H1 H2]]].
+  - destruct m as [|c m]; cbn in H2; [discriminate|]. injection H2 as _ ->. left. apply in_or_app. right. now left.
+  - destruct m as [|c m]; cbn in H2; [discriminate|]. injection H2 as _ ->. right. now exists m.
+Qed.
+
+Lemma cat_shape c : wf_cat c = true -> exists a w, c = a :: w /\ name_head a = true /\ forallb (fun x => pkg_char x || is 46 x) (a :: w) = true.
+Proof. unfold wf_cat. intros H. apply andb_true_iff in H as [H1 H2]. destruct c as [|a w]; [discriminate|]. exists a, w. auto. Qed.
+
+Record wfcn (a : atom_ast) : Prop := {
+  wfcn_cat : match a_cat a with Some c => wf_cat c = true | None => True end;
+  wfcn_name : wf_name (a_name a) = true }.
+
+Lemma catname_no_nl a : wfcn a -> forall c, In c (print_catname a) -> is 10 c = false.
+Proof.
+  intros [Hc Hn] c Hin. unfold print_catname, print_cat in Hin.
+  apply name_shape in Hn as (n0 & nw & Hn & _ & Hnc).
+  assert (Hp : forall c, (pkg_char c || is 46 c || is 47 c) = true -> is 10 c = false) by (apply impl_bytes_neg; bytes_check).
+  apply Hp. apply in_app_or in Hin as [Hin|Hin].
+  - destruct (a_cat a) as [ct|]; [|destruct Hin]. apply cat_shape in Hc as (a0 & w0 & -> & _ & Hcc).
+    apply in_app_or in Hin as [Hin|[<-|[]]]; [|reflexivity]. rewrite forallb_forall in Hcc. rewrite (Hcc _ Hin). reflexivity.
+  - rewrite Hn in Hin. rewrite forallb_forall in Hnc. rewrite (Hnc _ Hin). reflexivity.
+Qed.
+
+Lemma catname_tail a x y : wfcn a -> print_catname a = x ++ nb 45 :: y ->
+  In (nb 47) y \/ exists x', a_name a = x' ++ nb 45 :: y.
+Proof.
+  intros [Hc Hn] H. unfold print_catname, print_cat in H. destruct (a_cat a) as [ct|].
+  - rewrite <- app_assoc in H. cbn [app] in H. now apply catname_split in H.
+  - cbn [app] in H. right. now exists x.
+Qed.
+
+(* without a version: no hyphen of category/name starts a version *)
+Lemma ver_split_none a : wfcn a -> ver_split (print_catname a) = None.
+Proof.
+  intros W. rewrite <- (app_nil_r (print_catname a)). rewrite ver_split_app; [reflexivity|now apply catname_no_nl|].
+  intros x y Hxy. rewrite app_nil_r. destruct (catname_tail a x y W Hxy) as [Hs|Hn].
+  - now apply slash_tail_none. - eapply name_tail_none; [apply (wfcn_name a W)|exact Hn].
+Qed.
+
+(* with a version: the split is at the hyphen before the version, wherever else hyphens are *)
+Lemma ver_split_version a v g : wfcn a -> wfv v ->
+  ver_split (print_catname a ++ nb 45 :: print_version v ++ globtxt g) =
+  Some (print_catname a, MkVT (print_ver_main v) (print_sufs v) (print_rev v) g).
+Proof.
+  intros W Wv. rewrite ver_split_app; [|now apply catname_no_nl|intros x y _; now apply tail_before_version].
+  cbn [ver_split]. replace (is 10 (nb 45)) with false by reflexivity. replace (is 45 (nb 45)) with true by reflexivity.
+  rewrite ver_tail_print by assumption. now rewrite app_nil_r.
+Qed.
+
+(* ---- category / name ---- *)
+Lemma catname_match_print a : wfcn a ->
+  catname_match (print_catname a) = Some (match a_cat a with Some c => c | None => [] end, a_name a).
+Proof.
+  intros [Hc Hn]. unfold catname_match, print_catname, print_cat.
+  pose proof Hn as Hn'. apply name_shape in Hn' as (n0 & nw & En & Hn0 & Hnc).
+  assert (Hw : forall c, name_head c = true -> is_word c = true) by (apply impl_bytes; bytes_check).
+  assert (Hm : forall c, pkg_char c = true -> is_name_mid c = true) by (apply impl_bytes; bytes_check).
+  assert (Hcm : forall c, (pkg_char c || is 46 c) = true -> is_cat_mid c = true) by (apply impl_bytes; bytes_check).
+  assert (Hns : forall c, pkg_char c = true -> negb (is 47 c) = true) by (apply impl_bytes; bytes_check).
+  assert (Hcs : forall c, (pkg_char c || is 46 c) = true -> negb (is 47 c) = true) by (apply impl_bytes; bytes_check).
+  assert (Hpk : is_pkgname (a_name a) = true).
+  { rewrite En. cbn [is_pkgname]. rewrite (Hw _ Hn0). cbn [andb]. cbn [forallb] in Hnc. apply andb_true_iff in Hnc as [_ Hnc].
+    eapply forallb_impl; [|exact Hnc]. exact Hm. }
+  destruct (a_cat a) as [ct|].
+  - apply cat_shape in Hc as (a0 & w0 & -> & Ha0 & Hcc). rewrite <- app_assoc. cbn [app].
+    change (a0 :: w0 ++ nb 47 :: a_name a) with ((a0 :: w0) ++ nb 47 :: a_name a).
+    rewrite (span_exact (fun c => negb (is 47 c)) (a0 :: w0)); [|eapply forallb_impl; [|exact Hcc]; exact Hcs|right; reflexivity].
+    rewrite Hpk. cbn [is_cat]. rewrite (Hw _ Ha0). cbn [andb]. cbn [forallb] in Hcc. apply andb_true_iff in Hcc as [_ Hcc].
+    rewrite (forallb_impl _ _ _ Hcm Hcc). reflexivity.
+  - cbn [app]. rewrite <- (app_nil_r (a_name a)) at 1.
+    rewrite (span_exact (fun c => negb (is 47 c)) (a_name a)); [|rewrite En; eapply forallb_impl; [|exact Hnc]; exact Hns|now left].
+    now rewrite Hpk.
+Qed.
